@@ -301,6 +301,31 @@ def run_real(case):
             api.measurements['m%d' % op[1]][coords] = BASE[op[3]]
         elif op[0] == 'U':
           api.measurements['nope'] = 1
+        elif op[0] == 'G':
+          # writing into the copy handed out by get_measurement() (this phase's own dimensioned measurement): the
+          # measurement itself, its outcome included, is not touched
+          _ = api.measurements['m%d' % op[1]]
+          cp = api.get_measurement('m%d' % op[1])
+          if cp is not None and hasattr(cp.value, 'value_dict'):
+            cp.value[0 if (objs[op[1]].dimensions and len(objs[op[1]].dimensions) == 1) else
+                     tuple(range(len(objs[op[1]].dimensions or ())))] = BASE[op[2]]
+        elif op[0] == 'H':
+          # a LATER phase takes get_measurement() of this (finished) phase's dimensioned measurement and writes into the
+          # copy: the finished phase's record keeps what that phase assigned
+          if ended:
+            later = htf.PhaseOptions(name='later_phase')(lambda test: None)
+            c2 = state.running_phase_context(later)
+            p2 = c2.__enter__()
+            try:
+              cp = state.test_api.get_measurement('m%d' % op[1])
+              if cp is not None and hasattr(cp.value, 'value_dict'):
+                nd = len(objs[op[1]].dimensions or ())
+                for coords in list(cp.value.value_dict.keys())[:1] + [tuple(range(7, 7 + nd))]:
+                  cp.value[coords if nd != 1 or not isinstance(coords, tuple) else coords[0]] = BASE[op[2]]
+            finally:
+              from openhtf.core import phase_executor as _pe, phase_descriptor as _pd
+              p2.result = _pe.PhaseExecutionOutcome(_pd.PhaseResult.CONTINUE)
+              c2.__exit__(None, None, None)
         elif op[0] == 'A':
           state.diagnoses_manager.store._add_diagnosis(diagnoses_lib.Diagnosis(enum['R%d' % op[1]], 'added mid-phase'))
         elif op[0] == 'E':
@@ -340,6 +365,8 @@ def encode(case, obs):
       ops.append('D %d %d %s %d' % (op[1], len(op[2]), ' '.join(map(str, op[2])), op[3]))
     elif op[0] == 'A':
       ops.append('A %d' % op[1])
+    elif op[0] in ('G', 'H'):
+      ops.append('G')
     else:
       ops.append(op[0])
   store = case.get('store', [])
@@ -378,6 +405,11 @@ DECLSETS = [
      {'arity': 1, 'validators': [['pivot_range', 0, 10, None]], 'conds': [[1, ['equals', 3]], [2, ['equals', 1]]]}],
 ]
 
+# two dimensioned measurements, the earlier-declared one with a validator that raises at phase end on some values
+TWO_DIMS = [{'validators': [['range', 0, 10, None, None]]},
+            {'arity': 1, 'validators': [['raise_on', 9], ['pivot_range', 0, 10, None]]},
+            {'arity': 1, 'validators': [['pivot_range', 0, 4, None]]}]
+
 
 def _ops_alphabet():
   ops = []
@@ -386,7 +418,7 @@ def _ops_alphabet():
       ops.append(['S', i, v])
   for c, v in itertools.product([[0], [1], [0, 1]], (0, 1, 2, 3)):
     ops.append(['D', 2, c, v])
-  ops += [['U'], ['S', 2, 1], ['D', 0, [0], 1], ['D', 2, [], 1], ['S', 5, 1], ['A', 0], ['A', 2]]
+  ops += [['U'], ['S', 2, 1], ['D', 0, [0], 1], ['D', 2, [], 1], ['S', 5, 1], ['A', 0], ['A', 2], ['G', 2, 1], ['G', 2, 3]]
   return ops
 
 
@@ -394,7 +426,7 @@ def gen_cases(rng, tier):
   cases = []
   alpha = _ops_alphabet()
   small = [['S', 0, 2], ['S', 0, 1], ['S', 0, 3], ['S', 0, 5], ['S', 1, 1], ['S', 1, 4], ['D', 2, [0], 1], ['D', 2, [1], 2],
-           ['D', 2, [0], 3], ['D', 2, [0, 1], 1], ['U'], ['S', 2, 1], ['A', 0]]
+           ['D', 2, [0], 3], ['D', 2, [0, 1], 1], ['U'], ['S', 2, 1], ['A', 0], ['G', 2, 1]]
   maxlen = 3 if tier == 'quick' else 4
   for di, decls in enumerate(DECLSETS):
     for store in ([], [0], [1, 2]):
@@ -405,6 +437,18 @@ def gen_cases(rng, tier):
           if tier == 'thorough' and n == 4 and rng.random() < 0.93:
             continue
           cases.append({'decls': decls, 'store': store, 'ops': [list(o) for o in ops] + [['E']], 'src': 'exhaustive'})
+  two = [['D', 1, [0], 0], ['D', 1, [0], 2], ['D', 1, [1], 2], ['D', 2, [0], 0], ['D', 2, [0], 1], ['D', 2, [1], 3], ['S', 0, 2]]
+  for n in (2, 3):
+    for ops in itertools.product(two, repeat=n):
+      if n == 3 and rng.random() < (0.7 if tier == 'quick' else 0.0):
+        continue
+      cases.append({'decls': TWO_DIMS, 'store': [], 'ops': [list(o) for o in ops] + [['E']], 'src': 'two-dimensioned'})
+  # a later phase writes into its get_measurement() copy of a finished phase's dimensioned measurement
+  for decls in DECLSETS[:3] + [TWO_DIMS]:
+    for pre in ([['D', 2, [0], 1]], [['D', 2, [0], 1], ['D', 2, [1], 2]], []):
+      pre = [p for p in pre if decls[2].get('arity') == 1]
+      for v in (1, 3):
+        cases.append({'decls': decls, 'store': [], 'ops': [list(p) for p in pre] + [['E'], ['H', 2, v]], 'src': 'later-copy-write'})
   for i in range(2500 if tier == 'quick' else 30000):
     r = rng.derive(i)
     decls = r.choice(DECLSETS)
